@@ -950,6 +950,8 @@ pub struct Setup {
     pub state_hook: Option<Rc<dyn Fn(&mut SystemState)>>,
     /// when nothing else can run, an outside actor sends SIGCONT to every stopped process
     pub auto_continue: bool,
+    /// the file system has no /dev/null (opening it fails)
+    pub no_dev_null: bool,
 }
 
 impl Setup {
@@ -1075,9 +1077,11 @@ pub fn run_once(setup: &Setup, opts: &RunOpts) -> Run {
                 .save(format!("/bin/{name}"), mkfile(vec![], 0o755, true))
                 .unwrap();
         }
-        st.file_system
-            .save("/dev/null", Rc::new(RefCell::new(Inode::new([]))))
-            .unwrap();
+        if !setup.no_dev_null {
+            st.file_system
+                .save("/dev/null", Rc::new(RefCell::new(Inode::new([]))))
+                .unwrap();
+        }
         for d in &setup.dirs {
             st.file_system
                 .save(
